@@ -146,6 +146,28 @@ ADDED7 = {
     "C19": "C19.d: the library request is never tested for truthiness (a default may stand in for None only).",
     "C20": "Engine D analyses NumberParameter also for the raw kind 'number' (a numbers.Number that is not int / float / bool): it must have an identity path (C20.c).",
 }
+ADDED8 = {
+    "C01": "C01.j: utils.flatten descends into non-text containers only (a descent test that a string satisfies never ends).",
+    "C02": "C02.k: no reference walk reports a result reached along two chains as a loop (a cycle test on a path collection that is never unwound).",
+    "C05": "A stack of raveled layers is tracked as flattened (a layer of it is not the grid).",
+    "C06": "C06.g: operators keep nothing between executions (decided before the array analyser runs).",
+    "C07": "C07.d: every return of WeightedSum / WeightedMean depends on the weights.",
+    "C08": "C08.l also covers dictionaries that live in class or module scope (updated in place).",
+    "C09": "C09.c: nothing outside Command.run / __init__ stores to a command's memo.",
+    "C10": "C10.i: the text reaches the lexer unchanged; C10.j: nothing is raised on a test of the raw text before the parse call.",
+    "C11": "C11.d: an Argument carries its own node's line; C11.c: a pair / element does not take its line from a node built in a later symbol's action; C11.a accepts the counter put back to 1 on every way out of parse(); C11.h accepts a line read off the caught error itself.",
+    "C12": "C12.b: commands are started by Program.run alone (no other code walks the command table calling run() / .result); a validation cache keyed by a remembered state is 'cannot decide'.",
+    "C13": "C13.g: in Program.run a raw argument value goes to clean() or an isinstance test only.",
+    "C14": "C14.i: the EEMS 2.0 conversion yields one command per old command (a dropped self-reference is an unreported cycle).",
+    "C15": "C15.g: argument values are assigned by the constructor only.",
+    "C16": "C16.b: one converted node per old command; a refusal by name pattern is judged by language inclusion of the ID token in the pattern.",
+    "C17": "C17.i: csv readers / writers get constant format options (no sniffed dialect); C17.e looks into helpers nested in execute; C17.c decides the blank-row guard for the empty row and for a row of empty cells.",
+    "C18": "C18.a: the cleaner's reading of a type name and the reader's tests on it agree.",
+    "C19": "C19.e: constructing a program does not change sys.path / sys.modules / meta_path; C19.c: registration conditional on the class body defining execute is a violation, other conditions 'cannot decide'.",
+    "C20": "Engine D explores unset configuration attributes (`self.x is None`) and knows asarray from asanyarray.",
+}
+for _k, _v in ADDED8.items():
+    CLAIMS[_k]["text"] += " " + _v
 for _k, _v in ADDED7.items():
     CLAIMS[_k]["text"] += " " + _v
 for _k, _v in ADDED6.items():
